@@ -145,7 +145,7 @@ C01_RebuildEq == ~Rebuilt.err /\ Visible(Rebuilt.idx) = Visible(index)
 \* C02: the live index shows exactly the reference tree ...
 C02_RefEq == Visible(index) = ref
 \* ... and a failed call changes nothing.
-C02_FailNoChange == [][last'.res # "ok" => UNCHANGED <<tape, tend, index, ref>>]_vars
+C02_FailNoChange == [][(epoch' = epoch /\ last'.res # "ok") => UNCHANGED <<tape, tend, index, ref>>]_vars
 
 \* C04: positions.
 ContentRecs(p) == {i \in 1..Len(tape) : tape[i].off = index[p].pos}
@@ -161,7 +161,7 @@ C04_Positions ==
 C04_Last == LastIndexed(index) = tape[Len(tape)].off
 
 \* C05: append-only, a rejected call appends nothing, and the tape stays well-formed.
-C05_AppendOnly == [][IsPrefix(tape, tape') /\ tend' >= tend /\ (last'.res # "ok" => tape' = tape /\ tend' = tend)]_vars
+C05_AppendOnly == [][epoch' = epoch => (IsPrefix(tape, tape') /\ tend' >= tend /\ (last'.res # "ok" => tape' = tape /\ tend' = tend))]_vars
 C05_TarShape == WellFormed(tape, tend)
 
 \* C07: replaying the whole tape over the index of any prefix converges, without error.
@@ -178,7 +178,7 @@ Affected(c) == IF c.op = "RemoveAll" THEN Subtree(ref, c.p)
                ELSE IF c.op = "Rename" /\ c.p # c.q THEN Subtree(ref, c.p) \cup Subtree(ref, c.q) \cup {Rebase(s, c.p, c.q) : s \in Subtree(ref, c.p)}
                ELSE {}
 C12_Subtree ==
-  [][ (last'.res = "ok" /\ last'.call.op \in {"RemoveAll", "Rename"}) =>
+  [][ (epoch' = epoch /\ last'.res = "ok" /\ last'.call.op \in {"RemoveAll", "Rename"}) =>
         LET c == last'.call IN
         /\ \A x \in LiveKeys(index) \ Affected(c) : Live(index', x) /\ Node(index'[x]) = Node(index[x])
         /\ \A x \in LiveKeys(index') \ Affected(c) : Live(index, x)
@@ -189,7 +189,7 @@ C12_Subtree ==
                                             /\ Node(index'[Rebase(s, c.p, c.q)]) = Node(index[s])
     ]_vars
 C12_NoRenameIntoSelf ==
-  [][ (last'.call.op = "Rename" /\ IsProperPrefix(last'.call.p, last'.call.q) /\ last'.call.p \in DOMAIN ref)
+  [][ (epoch' = epoch /\ last'.call.op = "Rename" /\ IsProperPrefix(last'.call.p, last'.call.q) /\ last'.call.p \in DOMAIN ref)
         => last'.res # "ok" ]_vars
 
 \* C13: well-formed tree; listings are the direct children.
